@@ -77,6 +77,13 @@ def random_doc(rng, depth, max_alt, max_run):
     return (rng.choice(["Axon", "Dendrite", "AXON", "dendrite"]), rng.randint(1, max_run), sp)
 
 
+def has_empty_alt(doc):
+    def sp_has(sp):
+        return sp is not None and any(a is None or sp_has(a[1]) for a in sp)
+
+    return sp_has(doc[2])
+
+
 def doc_depth(doc):
     def sd(sp):
         if sp is None:
@@ -113,7 +120,8 @@ def fmt_num(v):
 def render(doc, style="compact", seed=0, corrupt=None):
     """Token list -> text.  Returns (text, end) where text[:end] ends with the document's last ')'.
 
-    style: compact | spaced | newlines | comments | colours | mixed
+    style: compact | spaced | newlines | comments (inside the tree body) | colours (before the label) | inline-colours
+           (between points) | comment-before-tree | comment-after-label | mixed (newlines + body comments + colour)
     corrupt: (k, kind) replaces the k-th point:  'three' | 'five' | ('word', position, token)
     """
     rng = random.Random(seed)
@@ -153,7 +161,7 @@ def render(doc, style="compact", seed=0, corrupt=None):
         toks.append((")", "sclose"))
 
     toks.append(("(", "topen"))
-    if style in ("colours", "mixed"):
+    if style in ("colours", "inline-colours", "mixed"):
         toks += [("(", "c"), ("Color", "c"), ("Red", "c"), (")", "c")]
     toks += [("(", "lopen"), (doc[0], "label"), (")", "lclose")]
     run(doc[1])
@@ -161,40 +169,44 @@ def render(doc, style="compact", seed=0, corrupt=None):
         split(doc[2])
     toks.append((")", "tclose"))
 
+    body_nl = style in ("newlines", "comments", "inline-colours", "mixed")
+    body_comments = style in ("comments", "mixed")
     out = []
-    if style in ("newlines", "comments", "mixed"):
+    if body_nl:
         out.append("\n  ")
-    if style in ("comments", "mixed"):
-        out.append("; Neurolucida export, version 3\n")
+    if style == "comment-before-tree":
+        out.append("; V3 text file written for MicroBrightField products.\n")
     for idx, (t, kind) in enumerate(toks):
         out.append(t)
-        last = idx == len(toks) - 1
-        if last:
+        if idx == len(toks) - 1:
             break
-        nxt = toks[idx + 1][0]
-        need_space = kind in ("num", "label", "c") and toks[idx + 1][1] in ("num", "c") and t not in "()" and nxt not in "()"
-        if style == "compact":
-            out.append(" " if need_space else "")
-        elif style == "spaced":
-            out.append(rng.choice([" ", "  ", "\t", " \t "]) if need_space or rng.random() < 0.6 else "")
-        else:
-            sep = " " if need_space else ""
-            if kind in ("pclose", "lclose", "sopen", "or", "sclose") or (kind == "c" and t == ")"):
+        nxt, nkind = toks[idx + 1]
+        need_space = kind in ("num", "label", "c") and nkind in ("num", "c") and t not in ("(", ")") and nxt not in ("(", ")")
+        sep = " " if need_space else ""
+        if style == "spaced":
+            if need_space or rng.random() < 0.6:
+                sep = rng.choice([" ", "  ", "\t", " \t "])
+        elif style == "comment-after-label" and kind == "lclose":
+            sep = " ; the tree\n"
+        elif body_nl:
+            if kind in ("pclose", "sopen", "or", "sclose"):
                 r = rng.random()
-                if style in ("comments", "mixed") and r < 0.35:
+                if body_comments and r < 0.35:
                     sep = rng.choice(["  ; a remark\n", " ;\n", ";note 1 2 3 4\n    ", " ; Spine | Marker\n"])
-                elif r < 0.8:
+                elif style == "inline-colours" and kind == "pclose" and r < 0.35:
+                    sep = " (Color Blue)\n "
+                elif r < 0.85:
                     sep = "\n" + " " * rng.randint(0, 6)
-                elif style in ("colours", "mixed") and kind == "pclose" and r > 0.9:
-                    sep = " (Color Blue) "
+            elif kind in ("lclose",) or (kind == "c" and t == ")"):
+                sep = "\n  "
             elif need_space and rng.random() < 0.3:
                 sep = "   "
-            out.append(sep)
+        out.append(sep)
     text = "".join(out)
     end = len(text)
-    if style in ("newlines", "comments", "mixed"):
+    if body_nl:
         text += "\n"
-    if style in ("comments", "mixed"):
+    if body_comments:
         text += "; end of file\n"
     return text, end
 
@@ -284,15 +296,20 @@ def convert(text):
 
 
 class Reporter:
-    """Caps the number of reports per (carrier, clause) at 3; inputs arrive smallest first."""
+    """Caps the reports per (carrier, clause) at 3 (inputs arrive smallest first); for the decoration clause one
+    report per decoration style (at most 6), so that each distinct way of failing is shown once."""
 
     def __init__(self, ctx):
-        self.ctx, self.count = ctx, {}
+        self.ctx, self.count, self.total = ctx, {}, {}
 
-    def __call__(self, clause, inp, observed, expected, carrier=CARRIER):
-        k = (carrier, clause)
+    def __call__(self, clause, inp, observed, expected, carrier=CARRIER, variant=None):
+        if variant is None and isinstance(inp, dict) and "doc" in inp:
+            variant = "with-empty-alternative" if has_empty_alt(from_json(inp["doc"])) else "no-empty-alternative"
+        k = (carrier, clause, variant)
         self.count[k] = self.count.get(k, 0) + 1
-        if self.count[k] <= 3:
+        self.total[clause] = self.total.get(clause, 0) + 1
+        cap, tot = (3, 3) if variant is None else ((2, 4) if variant in ("with-empty-alternative", "no-empty-alternative") else (1, 6))
+        if self.count[k] <= cap and sum(min(v, cap) for kk, v in self.count.items() if kk[:2] == k[:2]) <= tot:
             self.ctx.violation(carrier, clause, inp, observed, expected, inp)
 
 
@@ -337,11 +354,11 @@ def must_raise(text):
     return got["n"]
 
 
-STYLES = ["spaced", "newlines", "comments", "colours", "mixed"]
+STYLES = ["spaced", "newlines", "comments", "colours", "inline-colours", "comment-before-tree", "comment-after-label", "mixed"]
 BAD_WORDS = ["abc", "1x", "1.2.3"]
 
 
-def check_doc(ctx, rep, doc, tier_full=True, deco_seeds=(1,), group="doc"):
+def check_doc(ctx, rep, doc, tier_full=True, deco_seeds=(1,), group="doc", styles=None, mixed_stride=1):
     dj = to_json(doc)
     text, _ = render(doc)
     # self-check of the oracle: the text oracle agrees with the generator's own table
@@ -354,7 +371,7 @@ def check_doc(ctx, rep, doc, tier_full=True, deco_seeds=(1,), group="doc"):
     ctx.case(group, dict(doc=dj, style="compact"), nontrivial=True)
 
     # decorations do not change the result
-    for style in STYLES:
+    for style in (STYLES if styles is None else styles):
         for s in deco_seeds:
             dtext, _ = render(doc, style, s)
             dspec = dict(kind="convert", doc=dj, style=style, seed=s)
@@ -362,10 +379,10 @@ def check_doc(ctx, rep, doc, tier_full=True, deco_seeds=(1,), group="doc"):
             try:
                 got = convert(dtext)
             except Exception as e:
-                rep("decorations-ignored", dspec, f"{type(e).__name__}: {e} <- {e.__cause__!r}", "same table as the undecorated document")
+                rep("decorations-ignored", dspec, f"{type(e).__name__}: {e} <- {e.__cause__!r}", "same table as the undecorated document", variant=style)
                 got = None
             if got is not None and base is not None and got != base:
-                rep("decorations-ignored", dspec, f"n={got['n']} pid={got['pid']} type={got['type'][:6]}", f"n={base['n']} pid={base['pid']} type={base['type'][:6]}")
+                rep("decorations-ignored", dspec, f"n={got['n']} pid={got['pid']} type={got['type'][:6]}", f"n={base['n']} pid={base['pid']} type={base['type'][:6]}", variant=style)
             if got is not None and base is None:
                 check_conversion(rep, dspec, dtext)
             ctx.case(group + "-decorated", dict(doc=dj, style=style, seed=s))
@@ -376,14 +393,15 @@ def check_doc(ctx, rep, doc, tier_full=True, deco_seeds=(1,), group="doc"):
     for style, s in (("compact", 0), ("mixed", 1)):
         ttext, end = render(doc, style, s)
         accepted = []
-        for cut in range(0, end):  # text[:cut] never contains the final ')'
+        stride = mixed_stride if style == "mixed" else 1
+        for cut in range((end - 1) % stride, end, stride):  # text[:cut] never contains the final ')'; cut = end-1 always tried
             r = must_raise(ttext[:cut])
             if r is not True:
                 accepted.append((cut, r))
-        ctx.case(group + "-truncations", dict(doc=dj, style=style, cuts=end))
+        ctx.case(group + "-truncations", dict(doc=dj, style=style, cuts=end, stride=stride))
         if accepted:
             cut, nn = accepted[0]
-            tspec = dict(kind="truncate", doc=dj, style=style, seed=s, cut=cut)
+            tspec = dict(kind="truncate", doc=dj, style=style, seed=s, cut=cut, stride=stride)
             rep("truncation-rejected", tspec, f"prefix {ttext[:cut]!r} converted to {nn} nodes ({len(accepted)} of {end} prefixes accepted)", "an exception")
 
     # every single-point corruption must be rejected
@@ -431,30 +449,36 @@ def run(ctx):
     docs.sort(key=doc_size)
     max_depth = 3 if quick else 4
     n_exh = len(docs)
-    budget_full = 700 if quick else len(docs)
-    # full treatment (truncations + corruptions) for the smallest documents and an even sample of the rest
-    step = max(1, (len(docs) - 300) // max(1, budget_full - 300))
+    n_first, n_sampled = (300, 100) if quick else (len(docs), 0)
+    step = max(1, (len(docs) - n_first) // max(1, n_sampled))
+    n_full = 0
     for i, d in enumerate(docs):
-        full = i < 300 or (i - 300) % step == 0
-        check_doc(ctx, rep, d, tier_full=full, deco_seeds=(1,))
+        full = i < n_first or ((i - n_first) % step == 0 and n_sampled > 0)
+        n_full += full
+        # quick: every document in the compact layout and 3 of the 8 decorated layouts (rotating); thorough: all 8
+        styles = [STYLES[(i + k) % len(STYLES)] for k in (0, 3, 5)] if quick and i >= n_first else None
+        check_doc(ctx, rep, d, tier_full=full, deco_seeds=(1,), styles=styles)
     # random tail up to the maximal depth
-    n_rand = 250 if quick else 4000
+    n_rand, max_size = (150, 500) if quick else (2000, 900)
     tail = []
     while len(tail) < n_rand:
         d = random_doc(rng, max_depth, 3, 3)
         key = repr(to_json(d))
-        if key in seen or doc_size(d) > 900:
+        if key in seen or doc_size(d) > max_size:
             continue
         seen.add(key)
         tail.append(d)
     tail.sort(key=doc_size)
     for i, d in enumerate(tail):
-        check_doc(ctx, rep, d, tier_full=(i % (4 if quick else 2) == 0), deco_seeds=(1, 2), group="random-doc")
+        full = i % (5 if quick else 3) == 0
+        n_full += full
+        check_doc(ctx, rep, d, tier_full=full, deco_seeds=(1, 2) if not quick else (1,), group="random-doc", mixed_stride=3 if quick else 1)
     for n in (900, 5000):
         check_long(ctx, rep, n)
     ctx.rule(f"ASC documents from the property's grammar: all {n_exh} documents with (split depth <= 1, <= 3 alternatives, runs <= 3) or (depth <= 2, <= 2 alternatives, runs <= 2), "
-             f"both labels, plus {n_rand} seeded random documents of depth <= {max_depth} (<= 3 alternatives, runs <= 3, empty alternatives included); each in 6 layouts "
-             "(compact/whitespace/newlines/comments/colours/mixed); for a subset every character-prefix truncation (compact and mixed layout) and every single-point corruption "
+             f"both labels, plus {n_rand} seeded random documents of depth <= {max_depth} (<= 3 alternatives, runs <= 3, empty alternatives included); each in up to 9 layouts "
+             f"(compact + whitespace/newlines/comments/colours/inline colours/comment before tree/comment after label/mixed); for {n_full} of them (the smallest first) every character-prefix "
+             "truncation (compact and mixed layout) and every single-point corruption "
              "(3 numbers, 5 numbers, 3 non-numeric words x 4 positions); long single branches of 900 and 5000 points. Non-trivial = every document (>= 1 point).", exhaustive=False)
 
 
@@ -486,7 +510,8 @@ def replay(spec):
     elif kind == "truncate":
         doc = from_json(spec["doc"])
         text, end = render(doc, spec["style"], spec["seed"])
-        for cut in range(0, end):
+        stride = spec.get("stride", 1)
+        for cut in range((end - 1) % stride, end, stride):
             r = must_raise(text[:cut])
             if r is not True:
                 rep("truncation-rejected", spec, f"prefix of {cut} chars converted to {r} nodes", "an exception")
